@@ -1013,16 +1013,8 @@ class WalletTransaction(Transaction):
 
         :return:
         """
-        if not filename:
-            p = Path(BCL_DATA_DIR, '%s.tx' % self.txid)
-        else:
-            p = Path(filename)
-            if not p.parent or str(p.parent) == '.':
-                p = Path(BCL_DATA_DIR, filename)
-        f = p.open('wb')
-        t = self.to_transaction()
-        pickle.dump(t, f)
-        f.close()
+        # Transaction.save() stores a copy without the private keys of the inputs
+        self.to_transaction().save(filename)
 
     def delete(self):
         """
